@@ -29,7 +29,9 @@ ALPHA = 1e-8
 
 
 def exact_raw(p):
-    return p["exact"] and not p.get("long")
+    # the mechanism clause is about the serial route (all clocks from the global stream); the per-run call of the parallel
+    # route is covered by the law test below
+    return p["exact"] and not p.get("long") and not p.get("parallel")
 
 
 # ---------------------------------------------------------------------------
